@@ -185,6 +185,7 @@ pub struct Node {
     released_req_term: u64,
     self_grant: Option<u64>, // term of a campaign of this incarnation whose self-vote is not yet released in P
     handed: u64, // last index handed out for apply in this incarnation
+    last_tv: (u64, u64), // (term, vote) of the last hard state handed out in a Ready of this incarnation (initially the stored one)
     applied_emitted: u64, // PD: the applied index last reported to the model for this incarnation
     conf_applied: u64, // index up to which the node's configuration reflects the log (membership change being applied / snapshot restored), beyond `app.index`
 }
@@ -355,7 +356,7 @@ impl Sim {
             let app = d.applied.clone();
             nodes.push(Node {
                 id, rn, store, durable: d, pending: vec![], p_pending: 0, img_selfack: vec![], app, app_hist: VecDeque::new(), incarnation: 0, cfg, member,
-                granted: BTreeSet::new(), granted_term: 0, deferred: None, released_req_term: 0, self_grant: None, handed: 0, conf_applied: 0, applied_emitted: 0,
+                granted: BTreeSet::new(), granted_term: 0, deferred: None, released_req_term: 0, self_grant: None, handed: 0, conf_applied: 0, applied_emitted: 0, last_tv: (0, 0),
             });
         }
         let header = format!(
@@ -1171,9 +1172,24 @@ impl Sim {
         }
         // ---- C07 monitors on the Ready itself
         {
-            let must = !rd.entries().is_empty() || !rd.snapshot().is_empty()
-                || rd.hs().map_or(false, |h| h.term != self.nodes[i].durable_prev_term_vote().0 || h.vote != self.nodes[i].durable_prev_term_vote().1);
-            let _ = must;
+            // a Ready that carries new entries, a snapshot, or a hard state with a new term or vote must demand a
+            // synchronous write: the application may send its persisted messages (grants, acknowledgements) after
+            // an asynchronous write that a crash loses
+            let (lt, lv) = self.nodes[i].last_tv;
+            let tv_changed = rd.hs().map_or(false, |h| h.term != lt || h.vote != lv);
+            let must = !rd.entries().is_empty() || !rd.snapshot().is_empty() || tv_changed;
+            if must && !rd.must_sync() {
+                let what = format!(
+                    "n{} Ready #{} carries {} but must_sync() is false (hard state {:?}, previous term/vote ({}, {}))",
+                    id, rd.number(), if tv_changed { "a new term or vote" } else { "entries or a snapshot" }, rd.hs().map(|h| (h.term, h.vote, h.commit)), lt, lv
+                );
+                for p in ["C07", "C06", "C02"] {
+                    self.violate(p, what.clone());
+                }
+            }
+            if let Some(h) = rd.hs() {
+                self.nodes[i].last_tv = (h.term, h.vote);
+            }
         }
         for rs in rd.read_states().clone() {
             match self.reads.get(&rs.request_ctx) {
@@ -1350,6 +1366,7 @@ impl Sim {
         n.app_hist.clear();
         n.handed = d.applied.index;
         n.conf_applied = 0;
+        n.last_tv = (d.hs.term, d.hs.vote);
         // a restart reports its applied index with the `restart` event; a freshly bootstrapped node with the next event
         n.applied_emitted = if is_restart { d.applied.index } else { 0 };
         n.incarnation += 1;
